@@ -99,6 +99,28 @@ def check_to_list(case):
         cur = got
 
 
+def check_nested(case):
+    """to_list / to_str accept nested content (they flatten it first): the same container object may
+    occur several times in it - a ruler, a separator block - and every occurrence counts."""
+    ind = mk(case['cfg'])
+    ls = list(case['lines'])
+    i, j = sorted((case['cut'][0] % (len(ls) + 1), case['cut'][1] % (len(ls) + 1)))
+    shared = ls[i:j]
+    shape = case['shape']
+    if shape == 'list':
+        contents, flat = [shared, ls, shared], shared + ls + shared
+    elif shape == 'deep':
+        contents, flat = [[shared, [shared]], ls, [[shared]]], shared + shared + ls + shared
+    else:  # dict values
+        contents, flat = {'a': shared, 'b': ls, 'c': shared}, shared + ls + shared
+    got = ind.to_list(contents)
+    compare(got, spec(case['cfg'], flat), flat, f'to_list of nested content ({shape}, the same list '
+                                                f'object {len(flat) - len(ls)} lines, several times)')
+    s = ind.to_str(contents)
+    if got and s != '\n'.join(got) + '\n':
+        raise Fail(f'to_str {s!r} != EOL-joined to_list of the same nested content', 'to_str-differs')
+
+
 def check_to_str(case):
     ind = mk(case['cfg'])
     lst = ind.to_list(list(case['lines']))
@@ -254,6 +276,10 @@ def run(ctx):
                check_to_list, n, nontrivial=nontrivial, labels=labels)
     ctx.clause('to_str', st.fixed_dictionaries({'cfg': cfg, 'lines': lines}), check_to_str,
                max(1, n // 3), nontrivial=nontrivial, labels=labels)
+    ctx.clause('nested', st.fixed_dictionaries({
+        'cfg': cfg, 'lines': lines, 'cut': st.tuples(st.integers(0, 8), st.integers(0, 8)),
+        'shape': st.sampled_from(['list', 'deep', 'dict'])}), check_nested, max(1, n // 4),
+        nontrivial=lambda c: nontrivial(c) and len(c['lines']) >= 2, labels=labels)
     hdr_line = st.lists(st.sampled_from(list('ab ') + ['  ']), min_size=1, max_size=5).map(
         ''.join)
     ctx.clause('textblock', st.fixed_dictionaries({
